@@ -36,6 +36,16 @@ pub struct Case {
     /// number of seeks (a few records back, to a true record position) performed while reading
     #[serde(default)]
     pub seeks: u8,
+    /// added to seq_len (0, or 200..3000: capacities in the hundreds / thousands, FASTA records with up to
+    /// thousands of lines)
+    #[serde(default)]
+    pub big: u16,
+    /// > 0: every k-th record is tiny, so that long records start a few bytes into the buffer
+    #[serde(default)]
+    pub tiny_every: u8,
+    /// FASTA line width when `big` or `tiny_every` is set (0 = 61)
+    #[serde(default)]
+    pub line_width: u8,
 }
 
 pub struct NoAlloc;
@@ -44,21 +54,42 @@ impl Prop for NoAlloc {
     type Case = Case;
     fn strategy(&self, _tier: Tier) -> BoxedStrategy<Case> {
         boxed(
-            (gen::format(), 100u16..1500, 0u8..40, prop_oneof![2 => Just(0u8), 2 => 1u8..4, 1 => 4u8..20], any::<bool>(), 1u8..6, 0u8..30, gen::chunks(), any::<bool>(), prop_oneof![2 => Just(vec![]), 1 => proptest::collection::vec(any::<bool>(), 2..7)], (prop::bool::weighted(0.25), prop_oneof![3 => Just(0u8), 1 => 1u8..6])).prop_map(
-                |(format, n_records, seq_len, jitter, crlf, factor, slack, chunks, sets, mix, (mixed_term, seeks))| Case { format, n_records, seq_len, jitter, crlf, factor, slack, chunks, sets, mix, mixed_term: mixed_term && format == Format::Fastq, seeks },
+            (gen::format(), 100u16..1500, 0u8..40, prop_oneof![2 => Just(0u8), 2 => 1u8..4, 1 => 4u8..20], any::<bool>(), 1u8..6, 0u8..30, gen::chunks(), any::<bool>(), prop_oneof![2 => Just(vec![]), 1 => proptest::collection::vec(any::<bool>(), 2..7)], (prop::bool::weighted(0.25), prop_oneof![3 => Just(0u8), 1 => 1u8..6], prop_oneof![4 => Just(0u16), 1 => 200u16..1000, 1 => 1000u16..3000], prop_oneof![2 => Just(0u8), 1 => 2u8..6], prop_oneof![1 => Just(0u8), 1 => 1u8..4, 1 => 4u8..100])).prop_map(
+                |(format, n_records, seq_len, jitter, crlf, factor, slack, chunks, sets, mix, (mixed_term, seeks, big, tiny_every, line_width))| {
+                    let mixed_term = mixed_term && format == Format::Fastq && big == 0 && tiny_every == 0;
+                    Case { format, n_records, seq_len, jitter, crlf, factor, slack, chunks, sets, mix, mixed_term, seeks, big, tiny_every, line_width }
+                },
             ),
         )
     }
 
     fn check(&self, c: &Case, ctx: &mut Ctx) -> CheckResult {
         let f = fmt_name(c.format);
-        let mut input = super::c09::long_doc(c.format, c.n_records as usize, c.seq_len as usize, c.jitter as usize, c.crlf);
+        let shaped = c.big > 0 || c.tiny_every > 0;
+        let seq_len = c.seq_len as usize + c.big as usize;
+        // about 400 kB at most
+        let n_records = if c.big > 0 { (c.n_records as usize).min(400_000 / (2 * seq_len + 10)).max(40) } else { c.n_records as usize };
+        let mut input = if shaped {
+            let w = if c.line_width == 0 { 61 } else { c.line_width as usize };
+            super::c09::long_doc_mixed(c.format, n_records, seq_len, c.jitter as usize, c.crlf, c.tiny_every as usize, 0, w)
+        } else {
+            super::c09::long_doc(c.format, n_records, c.seq_len as usize, c.jitter as usize, c.crlf)
+        };
+        if c.big > 0 {
+            ctx.class("long records (capacity in the hundreds / thousands)");
+            if c.format == Format::Fasta && seq_len / (if c.line_width == 0 { 61 } else { c.line_width as usize }) > 1024 {
+                ctx.class("FASTA records with more than 1024 lines");
+            }
+        }
+        if c.tiny_every > 0 {
+            ctx.class("tiny records between the others");
+        }
         if c.mixed_term && c.format == Format::Fastq {
             // re-render: sequence line and quality line with different terminators, alternating per record
             let all_lf: Vec<u8> = input.iter().copied().filter(|b| *b != b'\r').collect();
-            let mut out = Vec::with_capacity(all_lf.len() + c.n_records as usize);
+            let mut out = Vec::with_capacity(all_lf.len() + n_records);
             for (li, line) in all_lf.split(|b| *b == b'\n').enumerate() {
-                if li == 4 * c.n_records as usize {
+                if li == 4 * n_records {
                     break;
                 }
                 out.extend_from_slice(line);
@@ -76,7 +107,7 @@ impl Prop for NoAlloc {
             input = out;
         }
         let m = if c.mixed_term { Model::build_lenient(c.format, &input) } else { Model::build(c.format, &input) };
-        ensure!(m.recs.len() == c.n_records as usize && m.term == Terminal::End, "harness/long-doc", "harness: document does not model as {} records", c.n_records);
+        ensure!(m.recs.len() == n_records && m.term == Terminal::End, "harness/long-doc", "harness: document does not model as {} records", n_records);
         let max_e = m.recs.iter().map(|r| r.extent).max().unwrap_or(0);
         let cap = ((max_e + 1) * c.factor as usize + c.slack as usize).max(3);
         let shared = Rc::new(Shared::default());
@@ -344,7 +375,7 @@ impl Prop for NoAlloc {
     }
 }
 
-pub const RULE: &str = "cases = (format, 100..1500 records of uniform or mildly varying shape, LF/CRLF, capacity = (largest extent + 1) x factor 1..5 + slack, chunk script, mode next() / one reused RecordSet / a generated mixture of both on one reader; optionally a few seeks back to earlier records in the second half; FASTQ optionally with different terminators on sequence and quality line). Every call after a warm-up of max(8 records, 2 buffer capacities) whose observable shape is dominated by what the same reader / set already handled (lines per record, records per set, lines per slot, total lines per set) is measured with a counting global allocator (thread-local window around the call and the accessors head/seq/qual/seq_lines): it must perform 0 allocations; the record-set buffer capacity and the reader capacity (policy never asked) stay unchanged. Non-dominated calls are skipped and counted. Non-trivial = >= 20 measured dominated calls in the case. Distinct = hash(case).";
+pub const RULE: &str = "cases = (format, 100..1500 records of uniform or mildly varying shape - in 1 of 3 cases 40..900 records of 200..3000 bases (FASTA line width 1..100, i.e. up to 3000 lines per record) and / or tiny records between the others -, LF/CRLF, capacity = (largest extent + 1) x factor 1..5 + slack, chunk script, mode next() / one reused RecordSet / a generated mixture of both on one reader; optionally a few seeks back to earlier records in the second half; FASTQ optionally with different terminators on sequence and quality line). Every call after a warm-up of max(8 records, 2 buffer capacities) whose observable shape is dominated by what the same reader / set already handled (lines per record, records per set, lines per slot, total lines per set) is measured with a counting global allocator (thread-local window around the call and the accessors head/seq/qual/seq_lines): it must perform 0 allocations; the record-set buffer capacity and the reader capacity (policy never asked) stay unchanged. Non-dominated calls are skipped and counted. Non-trivial = >= 20 measured dominated calls in the case. Distinct = hash(case).";
 
 pub fn run(tier: Tier) -> i32 {
     let mut run = Run::new("C18", tier, "exploration");
